@@ -47,9 +47,9 @@ Qed.
 
 Ltac simp :=
   repeat match goal with x := _ |- _ => subst x end;
-  cbn [chans senders subs streams adds drops tasks reader socket incoming dead cloned
+  cbn [chans senders subs streams adds drops tasks reader socket incoming dead arcs
        with_chans with_senders with_subs with_streams with_adds with_drops with_tasks with_reader with_socket with_incoming
-       with_dead with_cloned set_chan bury mk_stream got_more add_at s_rule s_ch s_from s_got a_rule a_q a_pc] in *;
+       with_dead with_arcs set_chan bury mk_stream got_more add_at s_rule s_ch s_from s_got a_rule a_q a_pc] in *;
   autorewrite with rms in *.
 
 (* what remove_match does to the tables *)
@@ -267,6 +267,8 @@ Proof.
     apply in_del_key in Hin. destruct Hin as [Hin Hne]. cbn in Hne. destruct (Hreg _ _ Hin) as [Hl'|Hr]; [now left | right].
     destruct Hr as [Hr|Hr]; [left; simp; exact Hr | right]. simp. eapply in_del_nth_keep; eauto. congruence.
   - (* add sender, failed: there are no senders *) rewrite H2 in Hin. destruct Hin.
+  - (* drop of a stream whose rule other clones hold: as drop, none *) destruct H as [Hl Hd]. destruct (Hreg _ _ Hin) as [Hl'|Hr]; [now left | right]. eapply (Hdel _ sid); try reflexivity; eassumption.
+  - destruct H as [Hl Hd]. destruct (Hreg _ _ Hin) as [Hl'|Hr]; [now left | right]. eapply (Hdel _ sid); try reflexivity; eassumption.
 Qed.
 
 (* how `subscriptions` can change in one step *)
@@ -384,6 +386,8 @@ Proof.
     + exists sid', st'. tauto.
     + eapply in_del_nth; eassumption.
   - (* add sender, failed *) left. split; [|intros; assumption]. intros sid' r' c' Ha. eapply a2_del in Ha; [apply Ha | reflexivity].
+  - (* drop, shared rule: as drop, none *) destruct H as [Hl Hd]. left. split; [intros; assumption|]. intros r' c'. eapply (Hdel _ sid); try reflexivity; eassumption.
+  - destruct H as [Hl Hd]. left. split; [intros; assumption|]. intros r' c'. eapply (Hdel _ sid); try reflexivity; eassumption.
 Qed.
 
 Lemma g_excl_step s l s' : tstep s l s' -> Inv s -> forall sid r c r' c', a2 s' sid r c -> r1 s' r' c' -> False.
@@ -447,6 +451,10 @@ Proof.
     rewrite lookup_del_other in Hd by assumption. rewrite lookup_del_other by assumption. exact (Hold _ _ Hd).
   - rm_tables. rewrite Edrp in Hd. rewrite Estr. exact (Hold _ _ Hd).
   - rm_tables. rewrite Edrp in Hd. rewrite Estr. exact (Hold _ _ Hd).
+  - destruct H as [Hl Hdn]. destruct (Hold _ _ Hd) as (st0 & r0 & Hst & Hr). exists st0, r0. split; [|assumption].
+    rewrite lookup_del_other; [assumption | intros ->; congruence].
+  - destruct H as [Hl Hdn]. destruct (Hold _ _ Hd) as (st0 & r0 & Hst & Hr). exists st0, r0. split; [|assumption].
+    rewrite lookup_del_other; [assumption | intros ->; congruence].
 Qed.
 
 Lemma g_ids_step s l s' : tstep s l s' -> Inv s -> forall sid a, lookup (adds s') sid = Some a -> lookup (streams s') sid = None.
@@ -475,6 +483,8 @@ Proof.
   - rm_tables. rewrite Eadd in Ha. rewrite Estr. exact (Hold _ _ Ha).
   - rm_tables. rewrite Eadd in Ha. rewrite Estr. exact (Hold _ _ Ha).
   - (* add sender, failed *) destruct (Nat.eq_dec sid0 sid) as [->|Hne]; [now rewrite lookup_del_same in Ha|]. rewrite lookup_del_other in Ha by assumption. exact (Hold _ _ Ha).
+  - destruct (Nat.eq_dec sid0 sid) as [->|Hne]; [apply lookup_del_same | rewrite lookup_del_other by assumption; exact (Hold _ _ Ha)].
+  - destruct (Nat.eq_dec sid0 sid) as [->|Hne]; [apply lookup_del_same | rewrite lookup_del_other by assumption; exact (Hold _ _ Ha)].
 Qed.
 
 Theorem G1_step s l s' : tstep s l s' -> Inv s -> G1 s'.
